@@ -167,7 +167,10 @@ EventsECalls(rt, cd, n) ==
 
 (* ====================================================================== *)
 (* funds: C05 - caller, own address, block, attached funds *)
-FundsSet == {<<>>, Eth(1), Eth(2), Eth(3), << <<"eth", 1>>, <<"btc", 1>> >>}
+FundsSet == {<<>>, Eth(1), Eth(2), Eth(3), << <<"eth", 1>>, <<"btc", 1>> >>,
+             (* zero coins and a repeated denomination: the bank moves the positive ones (summed), the contract is told the list as attached;
+                overdrawn with a zero coin next to it; nothing positive at all (rejected by the bank) *)
+             << <<"eth", 1>>, <<"btc", 0>> >>, << <<"btc", 0>>, <<"eth", 9>> >>, << <<"eth", 0>> >>, << <<"eth", 1>>, <<"eth", 1>> >>}
 SubFunds == {<<>>, Eth(1), Eth(2)}
 FundsMenu(info, fuel, cu) ==
     IF info.entry = "reply" THEN {W(info)}
@@ -253,7 +256,9 @@ RegCalls(rt, cd, n) ==
 D == "c3_3"
 GenesisAdm == Genesis0 \o
     << [call |-> [k |-> "store_code", creator |-> "u1", flavour |-> 4], sc |-> <<>>],
-       [call |-> ExecuteCall("u1", << Inst(3, "LD", "u1", <<>>, "") >>), sc |-> <<B0>>] >>
+       [call |-> ExecuteCall("u1", << Inst(3, "LD", "u1", <<>>, "") >>), sc |-> <<B0>>],
+       (* code 4: a duplicate of code 1 (same wrapper, same checksum, another id) - migrating A to it changes A's code id *)
+       [call |-> [k |-> "duplicate_code", id |-> 1], sc |-> <<>>] >>
 AdmMenu(info, fuel, cu) ==
     IF info.c = D /\ info.entry = "execute" /\ fuel > 1
     THEN {W(info)} \cup {Beh(FALSE, WriteTok(info), <<>>, <<>>, NoData, <<Sub(Send("u2", n), 1, "", on)>>) : n \in {1, 9}, on \in Ons}
@@ -269,7 +274,7 @@ AdmMenu(info, fuel, cu) ==
     ELSE {W(info), BFail}
 AdmCalls(rt, cd, n) ==
     { ExecuteCall(u, <<m>>) : u \in {"u1", "u2", "u3"},
-          m \in {Migrate(A, 2), Migrate(A, 1), Migrate(A, 7), Migrate(B, 1), Migrate(C, 2),
+          m \in {Migrate(A, 2), Migrate(A, 1), Migrate(A, 4), Migrate(A, 7), Migrate(B, 1), Migrate(C, 2),
                  UpdateAdmin(A, "u2"), UpdateAdmin(A, B), UpdateAdmin(A, A), UpdateAdmin(A, "u1"), UpdateAdmin(C, "u3"),
                  ClearAdmin(A), ClearAdmin(B), ClearAdmin(C)} }
     (* migrating to the code without a migrate entry point fails; so do its sudo and (below a sub-message) its reply *)
@@ -327,6 +332,8 @@ RouteMenu(info, fuel, cu) ==
                   m \in {Exec(B, <<>>), Exec(B, Eth(1)), Inst(2, "Lw", "", <<>>, ""), Send("u2", 1), Burn(1)}, on \in {"never", "success"}}
 RouteCalls(rt, cd, n) ==
     { ExecuteCall("u1", << Mod(s, "m0") >>) : s \in Slots }
+    (* long payloads of multi-byte characters (three alignments): handed over intact, the module's answer is the caller's *)
+    \cup { ExecuteCall("u1", << Mod(s, p) >>) : s \in Slots, p \in {"UNI0", "UNI1", "UNI2"} }
     \cup { ExecuteCall("u1", << Send("u2", 1), Mod(s, "m3") >>) : s \in Slots }
     \cup { ExecuteCall("u1", << Exec(c, <<>>) >>) : c \in {A, B, E} }
     (* other origins: messages emitted by the migrate, sudo and instantiate entry points *)
